@@ -126,6 +126,8 @@ type Interp struct {
 	fnInfos  map[*ssa.Function]*fnInfo
 	fnMetas  map[*ssa.Function]*fnMeta
 	pcEq     map[int]uint64
+	raceCache map[string]string
+	raceStats struct{ sharedObjs, candidatePairs, queries, discharged int }
 	pcNe     map[int][]uint64
 	snap     *snapshot
 	noSnap   bool
@@ -138,6 +140,7 @@ type Interp struct {
 	choiceOrder []string
 	tags        []string
 	fmtLenient  bool
+	parRegions  int
 	violCount   map[string]int
 }
 
@@ -1196,6 +1199,7 @@ func (in *Interp) sliceElems(s SliceV) []Value {
 	if s.arr == nil || s.len == 0 {
 		return nil
 	}
+	in.logObj("rd", s.arr)
 	return s.arr.v.(*ArrayV).e[s.off : s.off+s.len]
 }
 
